@@ -296,7 +296,7 @@ def output_recommendations(out: OutputBuffer, algs: Algorithms, algorithm_recomm
             for action in recommendations[level]:
                 for alg_type in recommendations[level][action]:
                     for alg_name_and_notes in recommendations[level][action][alg_type]:
-                        name = alg_name_and_notes['name']
+                        name = Utils.to_print_ascii(alg_name_and_notes['name'])  # As in the algorithm sections: names come from the peer (i.e.: the mechanism part of a gss-* key exchange) and are shown in printable ASCII only.
                         notes = alg_name_and_notes['notes']
 
                         p = '' if out.batch else ' ' * (padlen - len(name))
